@@ -336,8 +336,8 @@ def _run(tier: str, seed: int) -> Check:
         "zero-length header value: proxy_required and invalid_credential both accepted; ';'-only / '='-less strings are arbitrary strings (totality only)",
         "None and '' are treated as the same field value",
     ]
-    g = 2500 if tier == "quick" else 300000
-    a = 1500 if tier == "quick" else 100000
+    g = 2500 if tier == "quick" else 200000
+    a = 1500 if tier == "quick" else 60000
     nj = 8 if tier == "quick" else 32  # fixed shard count: results do not depend on the worker count
     jobs = [
         {"tier": tier, "seed": seed * 1000 + i, "fixed": i == 0, "grammar": g // nj + 1, "arbitrary": a // nj + 1}
